@@ -28,7 +28,7 @@ LEVEL_TEXT = ('Reference state-machine monitor over an exhaustive (bounded) enum
               'options, observing pass counts, hook calls, every cell before/after; exploration bounded by sequence length.')
 LEVEL_NOTE = 'Trusted: the 60-line reference machine in fsicverif/scripted.py; the scripted workload applies outcomes identically on both sides.'
 TECHNIQUE = 'scripted-model workload + reference state machine + call log and state snapshots (runtime monitor)'
-PAIRS = [(a, b) for a in scripted.FINITE_OUT for b in ('same', 'big')] + [('huge', 'huge')]
+PAIRS = [(a, b) for a in scripted.FINITE_OUT for b in ('same', 'big')] + [('huge', 'huge'), ('nhuge', 'same')]
 
 
 def nshards(tier):
@@ -70,6 +70,9 @@ def run_case(ctx, Model, case):
     if 'history' not in case:
         from .common import h64
         case['history'] = [None, None, None, None, 'copy', 'deepcopy', 'reindex', 'add-variable'][h64(['hist', case]) % 8]
+    if 'caller_filter' not in case:
+        from .common import h64
+        case['caller_filter'] = ['ignore', 'ignore', 'ignore', 'error', 'error', 'always', 'default'][h64(['wf', case]) % 7]
     if 't_numpy' not in case:
         from .common import h64
         case['t_numpy'] = h64(['tnp', case]) % 5 == 0       # the position given as a NumPy integer
